@@ -80,6 +80,10 @@ def _load_dry_config_file(orchestrator: "Orchestrator", config_file: str, verbos
     # An empty or comment-only file parses to None: nothing configured
     config: dict[str, Any] = loaded if isinstance(loaded, dict) else {}
 
+    # The file's repository-level ignore list applies to this run like for the other commands
+    if isinstance(config.get("ignore"), list):
+        orchestrator.config["ignore"] = config["ignore"]
+
     try:
         dry_config = config["dry"]
     except KeyError:
